@@ -108,11 +108,10 @@ class Node:
 
     def run(self, chunks):
         from frappy.protocol.interface.tcp import TCPRequestHandler
-        import io
-        import contextlib
+        from vf.nodekit import quiet_handler
         sock = FakeSock(chunks)
-        with contextlib.redirect_stdout(io.StringIO()):
-            TCPRequestHandler(sock, ('127.0.0.1', 1), FakeTcpServer(self.kit))
+        quiet_handler()
+        TCPRequestHandler(sock, ('127.0.0.1', 1), FakeTcpServer(self.kit))
         return sock
 
 
